@@ -546,12 +546,20 @@ pub fn run_isolated(
                             }
                             from = idx + 1;
                         } else if let Some(idx) = last_done {
-                            // poisoned exit (code 3) after a reported case, or died between cases
+                            // poisoned exit (code 3) after a reported case, or died between cases:
+                            // heap corruption is often detected late, by the allocator, when the
+                            // harness itself frees or allocates after the case was reported done.
+                            // The death is a violation attributed to the last case that ran.
                             if status.code() != Some(3) {
-                                machinery_error(&format!(
-                                    "child died between cases after {} ({}): {}",
-                                    idx, status, err_tail
-                                ));
+                                m.crashes += 1;
+                                m.violations_total += 1;
+                                if m.violations.len() < MAX_KEPT_VIOLATIONS {
+                                    m.violations.push(crash_violation(
+                                        idx,
+                                        format!("{}, after this case had been reported done (damage detected late, done by this case or an earlier one of the same process)", status),
+                                        err_tail,
+                                    ));
+                                }
                             }
                             from = idx + 1;
                         } else {
